@@ -27,35 +27,35 @@ type UpgradeSpec struct {
 type Step struct {
 	Op string `json:"op"`
 	// ---- tx
-	ID         int         `json:"id,omitempty"`
-	Kind       string      `json:"kind,omitempty"`
-	From       int         `json:"from,omitempty"`
-	To         int         `json:"to,omitempty"`
-	Amount     int64       `json:"amount,omitempty"`
-	Chains     []string    `json:"chains,omitempty"`
-	Output     int         `json:"output,omitempty"`
-	Delegators [][2]int    `json:"delegators,omitempty"` // (key index, share percent)
-	Declared   int         `json:"declared,omitempty"`   // declared Signer field (node unstake/unjail)
-	ParamKey   string      `json:"param_key,omitempty"`
-	ParamVal   string      `json:"param_val,omitempty"`
-	Action     string      `json:"action,omitempty"`
+	ID         int          `json:"id,omitempty"`
+	Kind       string       `json:"kind,omitempty"`
+	From       int          `json:"from,omitempty"`
+	To         int          `json:"to,omitempty"`
+	Amount     int64        `json:"amount,omitempty"`
+	Chains     []string     `json:"chains,omitempty"`
+	Output     int          `json:"output,omitempty"`
+	Delegators [][2]int     `json:"delegators,omitempty"` // (key index, share percent)
+	Declared   int          `json:"declared,omitempty"`   // declared Signer field (node unstake/unjail)
+	ParamKey   string       `json:"param_key,omitempty"`
+	ParamVal   string       `json:"param_val,omitempty"`
+	Action     string       `json:"action,omitempty"`
 	Upgrade    *UpgradeSpec `json:"upgrade,omitempty"`
-	SignKey    int         `json:"sign_key,omitempty"`
-	Sig        string      `json:"sig,omitempty"` // ok | flip | otherchain | none
-	Fee        int64       `json:"fee,omitempty"`
-	Entropy    int64       `json:"entropy,omitempty"`
-	Memo       string      `json:"memo,omitempty"`
-	Via        string      `json:"via,omitempty"` // "" straight into the next block | "checktx" first
+	SignKey    int          `json:"sign_key,omitempty"`
+	Sig        string       `json:"sig,omitempty"` // ok | flip | otherchain | none
+	Fee        int64        `json:"fee,omitempty"`
+	Entropy    int64        `json:"entropy,omitempty"`
+	Memo       string       `json:"memo,omitempty"`
+	Via        string       `json:"via,omitempty"` // "" straight into the next block | "checktx" first
 	// ---- resubmit
 	Ref int    `json:"ref,omitempty"`
 	Enc string `json:"enc,omitempty"` // same | overlong | unknown_field | dup_field
 	// ---- block
-	DtS      int64   `json:"dt_s,omitempty"`
-	Absent   []int   `json:"absent,omitempty"`   // indexes into the sorted signer set
+	DtS      int64      `json:"dt_s,omitempty"`
+	Absent   []int      `json:"absent,omitempty"`   // indexes into the sorted signer set
 	Evidence [][3]int64 `json:"evidence,omitempty"` // (validator index in signer set, height offset back, age seconds)
-	Proposer int     `json:"proposer,omitempty"`
-	Shuffle  int64   `json:"shuffle,omitempty"` // non-zero: mempool order permuted by this value
-	Interf   []Interf `json:"interf,omitempty"`
+	Proposer int        `json:"proposer,omitempty"`
+	Shuffle  int64      `json:"shuffle,omitempty"` // non-zero: mempool order permuted by this value
+	Interf   []Interf   `json:"interf,omitempty"`
 	// ---- off-chain / faults
 	Q      *Interf `json:"q,omitempty"`
 	Target int64   `json:"target,omitempty"` // rollback target offset / crash image mask
@@ -74,16 +74,16 @@ type Interf struct {
 
 // TxRecord is a built transaction with its ground truth.
 type TxRecord struct {
-	Step     Step
-	Msg      sdk.ProtoMsg
-	Bytes    []byte
-	Canon    []byte // canonical encoding of the same signed content
-	SignAddr string // hex address of the key that really signed ("" if none)
-	Declared []string // msg.GetSigners()
-	FeeCoins sdk.Coins
-	BuildErr string
-	Resubmit bool
-	Ref      int
+	Step      Step
+	Msg       sdk.ProtoMsg
+	Bytes     []byte
+	Canon     []byte   // canonical encoding of the same signed content
+	SignAddr  string   // hex address of the key that really signed ("" if none)
+	Declared  []string // msg.GetSigners()
+	FeeCoins  sdk.Coins
+	BuildErr  string
+	Resubmit  bool
+	Ref       int
 	Delivered int // number of deliveries with a non-empty diff
 	Encs      []string
 }
